@@ -1,4 +1,5 @@
 import AioProps.C15Lemmas
+import AioProps.C15StaticLemmas
 /-!
 # C15 — property theorems (static files: confinement and exact ranges)
 
@@ -238,5 +239,137 @@ theorem conditional_precedence (cur : Str) (mt : Nat) (h : CondHdrs) :
   cases im <;> cases inm <;> cases um <;> cases ms <;>
     simp [makeResponse, rfcPrecondition] <;>
     (repeat' split) <;> simp_all <;> omega
+
+/-! ## Part 2 — confinement
+
+`fs : Fs` is an arbitrary function from absolute paths to what `lstat` finds there; nothing
+is assumed about it.  `Resolved fs p` = no component of `p` is a symbolic link, i.e. `p` is
+the real location of whatever it names. -/
+
+/-- a toy tree: `/r` is the root with `a` (file 1), `out -> ../o/s` and `self -> self`;
+`/o/s` (file 2) lies outside -/
+def toyFs : Fs := tableFs [
+  ([[114]], .dir), ([[114], [97]], .file 1), ([[114], [111, 117, 116]], .link [46, 46, 47, 111, 47, 115]),
+  ([[114], [115, 101, 108, 102]], .link [115, 101, 108, 102]),
+  ([[111]], .dir), ([[111], [115]], .file 2), ([[114], [97, 46, 103, 122]], .file 3)]
+def toyCfg (follow : Bool) : Cfg := { root := [[114]], follow := follow, showIndex := false }
+
+/-- evaluate the model on the toy tree by rewriting with its defining equations (`walk` is
+defined by well-founded recursion, which `decide` cannot unfold) -/
+macro "toy_eval" : tactic => `(tactic|
+  simp [serve, resolvePath, toyCfg, pathSegs, splitSlash, SLASH, DOT, DOTDOT, realpath, follow, walk, hasNul,
+    toyFs, tableFs, itemNames, lexNorm, statF, fileTarget, sibling, asciiLower, findSub, isPrefix,
+    Gen.C15.encodingExtensions, osLstat, withExt])
+
+/-- **`realpath` yields real locations.**  Whatever the kernel-style walk returns contains no
+symbolic link and no `.`/`..`/empty name — for every file system, start path and fuel. -/
+theorem walk_resolved (fs : Fs) (fuel : Nat) (p q : Path) (h : follow fs fuel p = .ok q) :
+    Resolved fs q ∧ NormalPath q := follow_resolved fs fuel p q h
+
+/-- **A real location is its own real location**: following links from a resolved path goes
+nowhere, so `stat` there is `lstat` there. -/
+theorem stat_of_resolved (fs : Fs) (fuel : Nat) (p : Path) (h : Resolved fs p) (hn : NormalPath p) :
+    follow fs fuel p = .ok p := follow_of_resolved fs fuel p h hn
+
+/- Full statement (FALSE on the unchanged code under Python < 3.13, see `f21_symlink_loop_escapes_root`):
+   the same without `hnoloop`. -/
+/-- **Confinement without follow_symlinks.**  For every file system, root directory, request
+file name and Accept-Encoding: if the route serves a file at all, the bytes come from a
+location `p` that is inside the root (component-wise), contains no symbolic link at any level
+(so `p` *is* the real location), and is a regular file there — also when a pre-compressed
+sibling is chosen.  Missing for the full statement: `hnoloop`, i.e. resolving the joined path
+did not run into a symlink loop (then `Path.resolve` returns a half-resolved path, finding F21). -/
+theorem confined_partial (fs : Fs) (fuel : Nat) (cfg : Cfg) (filename ae : Str) (p : Path) (id : Nat)
+    (enc : Option Str) (hfollow : cfg.follow = false) (hroot : fs.lstat cfg.root = .dir)
+    (hnoloop : ∀ pp, follow fs fuel (cfg.root ++ pathSegs filename) ≠ .loop pp)
+    (h : serve fs fuel cfg filename ae = .file p id enc) :
+    cfg.root <+: p ∧ Resolved fs p ∧ fs.lstat p = .file id := by
+  unfold serve at h
+  split at h
+  · next o ho => exact absurd h (resolvePath_inl_not_file fs fuel cfg filename o ho p id enc)
+  · next p' hp' =>
+    obtain ⟨hrp, hpre, hnd⟩ := resolvePath_inr_nofollow fs fuel cfg filename p' hfollow hp'
+    have hf := realpath_noloop fs fuel _ _ hnoloop hrp
+    obtain ⟨hres, hnorm⟩ := follow_resolved fs fuel _ _ hf
+    exact fileTarget_confined fs fuel cfg.root p' _ p id enc hroot
+      (List.isPrefixOf_iff_prefix.mp hpre) hres hnorm hnd h
+
+set_option linter.unusedSimpArgs false in
+example : serve toyFs 8 (toyCfg false) [97] [] = .file [[114], [97]] 1 none := by toy_eval
+set_option linter.unusedSimpArgs false in
+example : serve toyFs 8 (toyCfg false) [97] [103, 122, 105, 112] = .file [[114], [97, 46, 103, 122]] 3 (some [103, 122, 105, 112]) := by
+  toy_eval
+set_option linter.unusedSimpArgs false in
+example : ∀ pp, follow toyFs 8 ((toyCfg false).root ++ pathSegs [97]) ≠ .loop pp := by
+  intro pp; toy_eval
+
+set_option linter.unusedSimpArgs false in
+/-- **Finding F21 (counterexample to the full statement).**  Root `/r` contains the loop
+`self -> self` and `out -> ../o/s`.  Without follow_symlinks, `out` is refused (404) but
+`self/../out` is served from `/o/s`, outside the root: `Path.resolve()` gives up at the loop,
+returns `/r/self/../out` normalised to `/r/out`, which passes `relative_to(root)` lexically,
+and `FileResponse` then follows the link. -/
+theorem f21_symlink_loop_escapes_root :
+    serve toyFs 8 (toyCfg false) [111, 117, 116] [] = .notFound ∧
+    serve toyFs 8 (toyCfg false) [115, 101, 108, 102, 47, 46, 46, 47, 111, 117, 116] [] = .file [[111], [115]] 2 none ∧
+    ¬ ((toyCfg false).root <+: [[111], [115]]) := by
+  refine ⟨by toy_eval, by toy_eval, by decide⟩
+
+/-- **With follow_symlinks the request path itself still cannot leave the root**: a file or a
+listing is produced only if the joined path, normalised *lexically* (dot segments removed
+without looking at the disk), stays under the root; only links met while resolving that path
+can lead outside. -/
+theorem follow_only_via_links (fs : Fs) (fuel : Nat) (cfg : Cfg) (filename ae : Str) (p : Path)
+    (hfollow : cfg.follow = true)
+    (h : (∃ id enc, serve fs fuel cfg filename ae = .file p id enc) ∨
+         serve fs fuel cfg filename ae = .listing p) :
+    cfg.root <+: lexNorm (cfg.root ++ pathSegs filename) := by
+  unfold serve at h
+  split at h
+  · next o ho =>
+    rcases h with ⟨id, enc, h⟩ | h
+    · exact absurd h (resolvePath_inl_not_file fs fuel cfg filename o ho p id enc)
+    · subst h
+      unfold resolvePath at ho
+      simp only [hfollow, if_true] at ho
+      repeat' split at ho
+      all_goals cases ho
+      by_cases hp : cfg.root.isPrefixOf (lexNorm (cfg.root ++ pathSegs filename)) = true
+      · exact List.isPrefixOf_iff_prefix.mp hp
+      · simp [hp] at *
+  · next p' hp' =>
+    exact List.isPrefixOf_iff_prefix.mp (resolvePath_inr_follow fs fuel cfg filename p' hfollow hp').1
+
+/-- **A directory listing only if enabled** — and only of a directory lexically under the
+root (which, without follow_symlinks and without the F21 loop case, is a resolved path). -/
+theorem listing_only_if_enabled (fs : Fs) (fuel : Nat) (cfg : Cfg) (filename ae : Str) (p : Path)
+    (h : serve fs fuel cfg filename ae = .listing p) :
+    cfg.showIndex = true ∧ cfg.root <+: p ∧ statF fs fuel p = .dir := by
+  unfold serve at h
+  split at h
+  · next o ho =>
+    subst h
+    obtain ⟨h1, h2, h3⟩ := resolvePath_listing fs fuel cfg filename p ho
+    exact ⟨h1, List.isPrefixOf_iff_prefix.mp h2, h3⟩
+  · next p' _ =>
+    unfold fileTarget at h
+    repeat' split at h
+    all_goals cases h
+
+/-- **A pre-compressed sibling is never reached through a link at its own name**: when a
+`.br`/`.gz` variant is served, `lstat` of the sibling's own directory entry (in the resolved
+directory) says regular file. -/
+theorem sibling_not_followed (fs : Fs) (fuel : Nat) (p' : Path) (ae : Str) (q : Path) (id : Nat) (coding : Str)
+    (h : fileTarget fs fuel p' ae = .file q id (some coding)) :
+    ∃ ext, osLstat fs fuel (withExt p' ext) = .file id := by
+  rcases fileTarget_file fs fuel p' ae q id _ h with ⟨ext, d, _, hl, _⟩ | ⟨_, _, hn⟩
+  · exact ⟨ext, hl⟩
+  · cases hn
+
+/-- **Absolute file names are refused** (`//host/share`, `/etc/passwd` after `%2F` decoding):
+404 before the file system is consulted. -/
+theorem absolute_filename_rejected (fs : Fs) (fuel : Nat) (cfg : Cfg) (filename ae : Str)
+    (h : filename.head? = some SLASH) : serve fs fuel cfg filename ae = .notFound := by
+  simp [serve, resolvePath, h]
 
 end Aio.C15
